@@ -2,7 +2,7 @@
    non-trivial worlds, and what fails without them (closed terms, decided by computation). *)
 From LC Require Import Lib.Bytes Lib.Lex Lib.Fields Lib.PathM Gen.Consts
   Model.MountInfo Model.FsTree Model.Kernel Model.Layers Cases.Verdict Cases.LC Cases.C11 Cases.C09
-  Proofs.LayerFileP Proofs.C11P Proofs.C09P Proofs.C11cP Proofs.C11rP.
+  Proofs.LayerFileP Proofs.C11P Proofs.C09P Proofs.C11cP Proofs.C11rP Proofs.C11sP.
 Import LC LCS.
 Open Scope string_scope.
 
@@ -54,6 +54,24 @@ Example wf_world_sat_add_parent : wf_world cfg0 fs0 (CAdd (bs "n2") (bs "base1")
 Proof. vm_compute. repeat split. Qed.
 Example wf_world_sat_add_skeleton : wf_world cfg0 fs0 (CAdd (bs "n3") [] []) = true
   /\ v_res (view_of_model cfg0 w0 (env0 NoFault) (CAdd (bs "n3") [] []) []) = ROk.
+Proof. vm_compute. repeat split. Qed.
+
+(* ---- C11 (b) after an earlier crash: the world reached by crashing `rebase dev1` before its
+   third operation holds a stale, partial layerconfig.tmp; it fails files_ok (wf_world) but
+   satisfies wf_world2, and commands run from it (here a second crash, and a rename that
+   moves the stale file along) *)
+Definition w0c : wobs := v_after (view_of_model cfg0 w0 (env0 (CrashAt 2)) (CRebase (bs "dev1") []) []).
+Example stale_world :
+  v_res (view_of_model cfg0 w0 (env0 (CrashAt 2)) (CRebase (bs "dev1") []) []) = RCrash
+  /\ exists_ (wo_fs w0c) (bs "/lc/layers/dev1/layerconfig.tmp") = true
+  /\ wf_world cfg0 (wo_fs w0c) (CRebase (bs "dev1") (bs "base1")) = false
+  /\ wf_world2 cfg0 (wo_fs w0c) (CRebase (bs "dev1") (bs "base1")) = true
+  /\ wf_world2 cfg0 (wo_fs w0c) (CRename (bs "dev1") (bs "dev2")) = true
+  /\ wf_world2 cfg0 (wo_fs w0c) (CRename (bs "base1") (bs "b2")) = true
+  /\ wf_world2 cfg0 (wo_fs w0c) (CAdd (bs "n2") (bs "dev1") []) = true
+  /\ v_res (view_of_model cfg0 w0c (env0 (CrashAt 1)) (CRebase (bs "dev1") (bs "base1")) []) = RCrash
+  /\ v_res (view_of_model cfg0 w0c (env0 NoFault) (CRebase (bs "dev1") (bs "base1")) []) = ROk
+  /\ v_res (view_of_model cfg0 w0c (env0 NoFault) (CRename (bs "dev1") (bs "dev2")) []) = ROk.
 Proof. vm_compute. repeat split. Qed.
 
 (* ---- C11 (c) *)
